@@ -113,8 +113,11 @@ func c05RunX(rc *simrt.RunCtx, faults, inject bool) {
 		// the first connections are given up by the client application in
 		// the middle of the transfer (it stops reading and closes)
 		upTo := 1 + rc.Pick(3, "wl.abandon-instances")
+		// ... or by the server application, or by both (the server side of
+		// gRPC keeps one NoiseGrpcConn for all connections it accepts, too)
+		abSide := []string{"client", "server", "both"}[rc.Pick(3, "wl.abandon-side")]
 		st.abandonAt = func(in *instance) int {
-			if in.side != "client" || in.k >= upTo {
+			if (abSide != "both" && in.side != abSide) || in.k >= upTo {
 				return 0
 			}
 			return 1 + rc.Pick(in.plan+40000, "wl.abandon-at")
